@@ -24,6 +24,7 @@ int_t await(volatile int_t *status)
 
     /* randnum = ( random() & 0xff ); */
     randnum = 0;
+    SLU_MT_VEV(VE_FLAG_CHECK, -1, -1, status);
     while ( *status ) ;
 #if 0
     {
